@@ -1,7 +1,7 @@
 (* Property C15 — only authorised parties can perform privileged actions. Statements only; proofs in
    Proofs/AuthProofs.v. *)
 From MD.Model Require Import Base Ownable Epoch PoolMath Types PoolManager FarmManager Chain.
-From MD.Proofs Require Import ChainProofs PmProofs AuthProofs.
+From MD.Proofs Require Import ChainProofs PmProofs AuthProofs PositionsSafe OwnersOnly PositionsExample.
 
 (* On all four contracts, from any world and for any sender: a configuration change (feature toggles are part
    of the pool manager's UpdateConfig), an ownership transfer proposal or a renouncement is accepted only when
@@ -78,6 +78,29 @@ Example C15_nonvacuous : privileged PM (WPm (PmUpdateConfig None None None None)
   privileged FM (WFm (FmOwnership (Transfer "x" None))) <> None.
 Proof. repeat split; discriminate. Qed.
 
+(* OVER HISTORIES. While a contract's ownership is settled - it has an owner o (a user address) and no transfer is
+   pending - NO history of operations that o does not sign changes that contract's ownership record or configuration:
+   whatever the others do, with every call between the contracts, replies, rejected operations and injected faults.
+   Epoch manager and fee collector: the whole state; pool manager: ownership record and configuration (fee collector,
+   farm manager, pool creation fee); farm manager: ownership record and configuration. (The per-pool feature switches
+   live in the pools; that only the owner's UpdateConfig moves them is C15_privileged_requires_owner_and_no_funds and
+   C17_toggle_changes_only_the_named_flags, transaction by transaction.) *)
+Theorem C15_only_the_owner_changes_ownership_and_configuration : forall o ops w,
+  o <> EM -> o <> FC -> o <> PM -> o <> FM ->
+  Forall (not_signed_by o) ops ->
+  (settled o (em_own (w_em w)) -> w_em (run w ops) = w_em w) /\
+  (settled o (w_fc w) -> w_fc (run w ops) = w_fc w) /\
+  (settled o (pm_own (w_pm w)) -> pm_own (w_pm (run w ops)) = pm_own (w_pm w) /\ pm_cfg (w_pm (run w ops)) = pm_cfg (w_pm w)) /\
+  (settled o (fm_own (w_fm w)) -> fm_own (w_fm (run w ops)) = fm_own (w_fm w) /\ fm_cfg (w_fm (run w ops)) = fm_cfg (w_fm w)).
+Proof. exact only_the_owner_changes_ownership_and_configuration. Qed.
+
+(* the hypotheses are met by a real history (kernel-evaluated): from the genesis of the other examples all four
+   ownerships are settled with owner "owner"; the history is everything the others did there followed by their attempts
+   at every privileged message of every contract (configuration changes, feature switches, transfers, acceptances,
+   renouncements); pools, positions and farms exist afterwards *)
+Theorem C15_owners_example : owners_statement.
+Proof. exact owners_example. Qed.
+
 Print Assumptions C15_privileged_requires_owner_and_no_funds.
 Print Assumptions C15_rejected_changes_nothing.
 Print Assumptions C15_ownership_actions.
@@ -86,3 +109,5 @@ Print Assumptions C15_pm_owner_frame.
 Print Assumptions C15_epoch_manager_messages.
 Print Assumptions C15_farm_manager_roles.
 Print Assumptions C15_nonvacuous.
+Print Assumptions C15_only_the_owner_changes_ownership_and_configuration.
+Print Assumptions C15_owners_example.
